@@ -310,7 +310,7 @@ def is_sorted(W):
 
 
 # ------------------------------------------------------------------------------------- the judge
-def judge(A, B, W, Q, *, sparse, hermitian, realsym, sorter, rec, lam_ref, cond_ref, nBinv,
+def judge(A, B, W, Q, *, sparse, realsym, sorter, rec, lam_ref, cond_ref, nBinv,
           nmodes=None, sigma=0.0, count=None):
     """Decide every clause of C11 for one response.  Returns (failures, obs): failures is a list of
     (mechanism, witness) in the order the clauses are stated, obs the measured maxima.
@@ -412,6 +412,7 @@ def judge(A, B, W, Q, *, sparse, hermitian, realsym, sorter, rec, lam_ref, cond_
     # ---- spectrum
     lam_ref = np.asarray(lam_ref)
     tol_ref = res_tol * nBinv * (nA + np.abs(lam_ref) * nB) * cond_ref + 64 * EPS * n * np.max(np.abs(lam_ref), initial=0.0)
+    tol_ref = tol_ref + 1e-300          # the zero matrix: exact comparison, no 0/0
     if not sparse:
         if k == n == len(lam_ref):
             m = match(W, lam_ref)
@@ -446,8 +447,10 @@ def judge(A, B, W, Q, *, sparse, hermitian, realsym, sorter, rec, lam_ref, cond_
             closer = np.where(~taken & (dref < dgot[far] - (tol_ref + tol_ref[m][far])))[0]
             cnt("selections_checked")
             missed_copy, wrong = [], []
+            acc = 64 * EPS * n * np.max(np.abs(lam_ref), initial=0.0)          # accuracy of the reference itself
             for j in closer:
-                twin = np.abs(lam_ref[m] - lam_ref[j]) <= tol_ref[m] + tol_ref[j]
+                # numerically multiple: relative gap of the shift-inverted spectrum 1/(lam - sigma) below 1e-8
+                twin = np.abs(lam_ref[m] - lam_ref[j]) <= 1e-8 * dref[j] + acc
                 (missed_copy if np.any(twin) else wrong).append(int(j))
             if missed_copy:
                 cnt("selections_where_a_copy_of_a_multiple_eigenvalue_was_missed")
